@@ -139,6 +139,12 @@ def cov_report(prop: str, hit: set) -> dict:
                     "lines": n_l, "lines_executed": n_x, "not_entered": missed[:80]}
         tot["functions"] += len(funcs); tot["functions_entered"] += len(funcs) - len(missed)
         tot["lines"] += n_l; tot["lines_executed"] += n_x
+    try:   # executed lines per anchored file, for tools/mutate.py (scratch output, not evidence)
+        os.makedirs(os.path.join(VERIF, "coverage"), exist_ok=True)
+        json.dump({rel: sorted(by_file.get(rel[len("rdflib/"):], ())) for rel in rep},
+                  open(os.path.join(VERIF, "coverage", f"{prop}.json"), "w"))
+    except Exception:
+        pass
     return {"total": tot, "files": rep,
             "note": "function bodies of the property's anchored files executed by the implementation side of this run "
                     "(sys.monitoring LINE events; module-level statements are not counted)"}
